@@ -1308,6 +1308,13 @@ class C05(Prop):
                    ("efun-ok", 'a = ({ 1, 2 }); VL ("say x-" + sprintf ("%d%d", a...));', "(spread 2) (consume) (say x-12)"),
                    # an error raised by a LATER argument (the compiler expands the spread after all arguments are pushed)
                    ("later-arg-error", 'a = ({ 1, 2, 3 }); s = sprintf ("%d", a..., a[9]);', "(raisemsg *Array index out of bounds.)")]
+        # … and what the master's error handler sees (it runs BEFORE the unwinding): script 32, evaluated without fault injection
+        for name, stmt, sops in spreads[:2]:
+            for outer in (False, True):
+                B.append(fixed_case("b-handler-scratch-%s%s" % (name, "-caught" if outer else ""),
+                                    (CATCHSTMT % "sg ()") if outer else "sg ();",
+                                    ("(catch (call local t 0 0 %s)) (saycatch)" % sops) if outer else "(call local t 0 0 %s)" % sops,
+                                    fns=["void sg () { %s %s }" % (DECL, stmt)], prep="master ()->set_hscript (32);", inject="run t run"))
         for name, stmt, sops in spreads:
             for outer in (False, True):
                 B.append(fixed_case("b-spread-%s%s" % (name, "-caught" if outer else ""),
@@ -1385,6 +1392,7 @@ class C05(Prop):
             ("probe-destruct", [out(["done 1"], pr=probe.replace("d=0", "d=*Only this_object() can be destructed"))], "probe fault differs"),
             ("half-install", [out(["caught nf", "catch nf", "done 1"], pr=probe.replace("in=0", "in=1"))], "half-install"),
             ("catch-value", [out(["caught *boom1", "catch *other", "done 1"])], "catch-value"),
+            ("scratch", [out(["say handler lit=4 scratch-mismatch", "err *x", "fault-top"])], "scratch"),
             ("efun-result", [out(["caught *boom1", "catch *boom1", "say r=3,1,2 result-mismatch", "done 1"])], "efun-result"),
             ("catch-value-zero", [out(["caught *boom1", "catch 0", "done 1"])], "catch-value"),
             ("catch-value-one", [out(["caught *boom1", "catch 1", "done 1"])], "catch-value"),
